@@ -512,7 +512,9 @@ Core(m, e) ==
     [] OTHER -> [m |-> m, bad |-> {}]      \* Exec, Disp, Skip, EndProg, Crash: diagnostics only
 
 MStep(m, e) ==
-  LET adv == IF "t" \in DOMAIN e /\ e.e # "Prog" THEN Advance(m, e.t) ELSE [m |-> m, bad |-> {}]
+  LET adv == IF "t" \in DOMAIN e /\ e.e # "Prog"
+               THEN IF e.t < m.now THEN [m |-> m, bad |-> Bad("C01", "clock-went-backwards")] ELSE Advance(m, e.t)
+               ELSE [m |-> m, bad |-> {}]
       r == Core(adv.m, e)
       act == IF e.e \in {"Call", "Ret", "Do"} THEN [p |-> e.p, op |-> e.op]
              ELSE IF e.e \in {"Enter", "Return", "ExitCall", "StopCall"} THEN [p |-> e.p, op |-> e.e]
